@@ -502,6 +502,14 @@ func genTCase(t *rapid.T) TCase {
 		default:
 			c.Acts = append(c.Acts, TAct{Kind: "restart-follower"})
 		}
+		if rapid.IntRange(0, 5).Draw(t, "brokenrecovery") == 0 {
+			// a snapshot recovery of a follower table dies right after it recorded its recovery shard (often followed by a restart)
+			c.Acts = append(c.Acts, TAct{Kind: "reconcile"}, TAct{Kind: "broken-recovery", Name: rapid.SampledFrom([]string{"x", "y", "z"}).Draw(t, "bname")})
+			if rapid.Bool().Draw(t, "thenrestart") {
+				c.Acts = append(c.Acts, TAct{Kind: "restart-follower"})
+			}
+			c.Acts = append(c.Acts, TAct{Kind: "reconcile"})
+		}
 	}
 	return c
 }
@@ -536,10 +544,30 @@ func runTables(c TCase, o *vt.Obs) *vt.Failure {
 		_ = p.Mgrs[0].VerifReconcileTables()
 		_ = p.F.E.Manager.VerifReconcile()
 	}()
-	created, deleted := 0, 0
+	created, deleted, broken := 0, 0, 0
 	followerHad := false
+	// a replication manager of its own (never started: the harness runs its reconcile rounds) whose workers idle - they start quickly
+	// (the start-up jitter is drawn from the poll interval) and never get a lease
+	var wm *replication.Manager
+	newWM := func() {
+		if wm != nil {
+			wm.VerifStopWorkers()
+		}
+		wm = replication.NewManager(p.F.E, p.Queue, p.Conns[0], replication.Config{ReconcileInterval: time.Hour, Workers: replication.WorkerConfig{
+			PollInterval: 2 * time.Millisecond, LeaseInterval: time.Hour, LogRPCTimeout: 30 * time.Second, SnapshotRPCTimeout: 60 * time.Second, MaxRecoveryInFlight: 1}})
+	}
+	newWM()
+	defer func() { wm.VerifStopWorkers() }()
 	for i, a := range c.Acts {
 		switch a.Kind {
+		case "broken-recovery":
+			if _, err := p.F.E.GetTable(prefix + a.Name); err != nil {
+				continue // not replicated (yet)
+			}
+			if _, ferr, rerr := p.BrokenRestore(prefix+a.Name, 0, 0); ferr == nil && rerr != nil {
+				broken++
+				o.Label("recovery-died-after-recording-its-recovery-shard")
+			}
 		case "create":
 			if _, err := p.L.E.CreateTable(prefix + a.Name); err == nil {
 				created++
@@ -549,13 +577,29 @@ func runTables(c TCase, o *vt.Obs) *vt.Failure {
 				deleted++
 			}
 		case "restart-follower":
+			wm.VerifStopWorkers()
 			if err := p.RestartFollower(); err != nil {
 				vt.Inconclusive("C05 follower restart: " + err.Error())
 				return nil
 			}
+			newWM()
 		case "reconcile":
 			if err := p.Mgrs[0].VerifReconcileTables(); err != nil {
 				return vt.Failf(prop+"/reconcile-tables-error", i, "%v", err)
+			}
+			// every table of the follower gets a replication worker (a table without one never catches up), dropped tables lose theirs
+			if err := wm.VerifReconcileWorkers(); err != nil {
+				return vt.Failf(prop+"/reconcile-workers-error", i, "%v", err)
+			}
+			if all, err := p.F.E.GetTables(); err == nil {
+				var names []string
+				for _, tb := range all {
+					names = append(names, tb.Name)
+				}
+				sort.Strings(names)
+				if got := wm.VerifWorkerTables(); fmt.Sprint(got) != fmt.Sprint(names) {
+					return vt.Failf(prop+"/worker-set-differs", i, "after a reconcile round the follower's tables are %v but replication workers exist for %v: a table without a worker never reaches the leader's state", names, got)
+				}
 			}
 			ln, err := tableNames(p.L, prefix)
 			if err != nil {
@@ -579,7 +623,7 @@ func runTables(c TCase, o *vt.Obs) *vt.Failure {
 			followerHad = len(fn) > 0
 		}
 	}
-	o.NonTrivial = created > 0 && deleted > 0
+	o.NonTrivial = (created > 0 && deleted > 0) || broken > 0
 	o.Describe = func() string { return fmt.Sprintf("%+v", c.Acts) }
 	return nil
 }
